@@ -4,6 +4,7 @@ package main
 // driver registries, Redis URL parsing, and "the store is built from the validated config".
 
 import (
+	"github.com/chihaya/chihaya/pkg/timecache"
 	"github.com/chihaya/chihaya/pkg/stop"
 	"strconv"
 	"math/big"
@@ -264,11 +265,64 @@ func cfgStoreNew(c *Ctx, kind string, rt, wt, ct int64, shards int64) {
 	c.Emit(op, obs)
 }
 
+// cfg.store_bg: the store's own background expiry loop must use the *validated* peer lifetime: a store configured
+// without one (or with a non-positive one) keeps a freshly announced peer over several expiry ticks
+func cfgStoreBG(c *Ctx, kind string, life, gci int64) {
+	op := fmt.Sprintf("cfg.store_bg kind=%s life=%d gci=%d", kind, life, gci)
+	c.Begin(op)
+	obs := func() (o string) {
+		defer func() {
+			if p := recover(); p != nil {
+				o = "PANIC " + strings.Fields(fmt.Sprint(p))[0]
+			}
+		}()
+		timecache.VerifSetClock(time.Now().UnixNano())
+		var ps storage.PeerStore
+		var err error
+		if kind == "redis" {
+			mr, e := miniredis.Run()
+			if e != nil {
+				return "miniredis-failed"
+			}
+			_ = mr
+			ps, err = redis.New(redis.Config{RedisBroker: "redis://@" + mr.Addr() + "/0", PeerLifetime: time.Duration(life), GarbageCollectionInterval: time.Duration(gci)})
+		} else {
+			ps, err = memory.New(memory.Config{ShardCount: 2, PeerLifetime: time.Duration(life), GarbageCollectionInterval: time.Duration(gci)})
+		}
+		if err != nil {
+			return "new=err"
+		}
+		defer func() { <-ps.Stop() }()
+		p := bittorrent.Peer{ID: bittorrent.PeerIDFromString("-VF0001-000000000001"), Port: 6881,
+			IP: bittorrent.IP{IP: []byte{10, 0, 0, 1}, AddressFamily: bittorrent.IPv4}}
+		ih := bittorrent.InfoHashFromString("01234567890123456789")
+		timecache.VerifSetClock(time.Now().UnixNano())
+		if err := ps.PutSeeder(ih, p); err != nil {
+			return "put=err"
+		}
+		time.Sleep(time.Duration(gci)*5 + 50*time.Millisecond)
+		kept := ps.ScrapeSwarm(ih, bittorrent.IPv4).Complete == 1
+		if life > 0 && life < int64(time.Second) { // a lifetime this short: the peer must go, give the loop time under load
+			for i := 0; i < 100 && kept; i++ {
+				time.Sleep(30 * time.Millisecond)
+				kept = ps.ScrapeSwarm(ih, bittorrent.IPv4).Complete == 1
+			}
+		}
+		return "kept=" + b01(kept)
+	}()
+	c.Emit(op, obs)
+}
+
 func replayC20(c *Ctx, op string, a map[string]string) {
 	geti := func(k string) int64 { var v int64; fmt.Sscan(a[k], &v); return v }
 	switch op {
 	case "vi.check":
 		replayC18(c, op, a)
+	case "cfg.store_bg":
+		var life, gci int64
+		fmt.Sscan(a["life"], &life)
+		fmt.Sscan(a["gci"], &gci)
+		cfgStoreBG(c, a["kind"], life, gci)
 	case "cfg.hooks":
 		if a["list"] == "-" || a["list"] == "" {
 			cfgHooks(c, nil)
@@ -312,6 +366,11 @@ func runC20(c *Ctx) {
 	// hook options outside their documented ranges are refused
 	hookOptionTable(c, r)
 	genHookLists(c, r, 60)
+	for _, kind := range []string{"memory", "redis"} {
+		for _, life := range []int64{0, -1, int64(time.Hour), int64(time.Millisecond)} {
+			cfgStoreBG(c, kind, life, int64(30*time.Millisecond))
+		}
+	}
 	for _, n := range []string{"", "nope", "Memory", "memory ", "client approval", "postgres"} {
 		cfgNew(c, "store", n, false)
 	}
